@@ -385,7 +385,9 @@ class Planner:
             items, _ = self.stream_layout(n, f["pos"], ordinary, special, groups)
             st += pre
             st.append(self.step(rpc, {"items": items}, "stream", "PerItem", groups, touch, timeout_ms=120000,
-                                special=q["special"], ordinary=q["ordinary"]))
+                                special=q["special"], ordinary=q["ordinary"],
+                                # an item the transport cannot even decode (message over the size limit) ends a client stream
+                                poison=(f["vec"] == "huge" and f["pos"] != "none")))
         elif rpc == "FlushHotTier":
             st.append(self.step(rpc, {"force": f["aux"] == "force"}, "read", exp))
         elif rpc == "CreateSnapshot":
@@ -636,7 +638,8 @@ class Runner:
                 "answered": answered(rec), "next": nxt, "ok": ok, "groups": st["groups"], "applied": applied,
                 "failed": failed, "res": res, "payload": payload, "cen": cen, "extra": extra, "count": count,
                 # a point lookup the model expects to be served (abstract id; 0 = none): "keeps serving later requests"
-                "probe": (st["touch"][0] if st.get("payload") == "found" and st["exp"] == "Accept" and st.get("touch") else 0)}
+                "probe": (st["touch"][0] if st.get("payload") == "found" and st["exp"] == "Accept" and st.get("touch") else 0),
+                "poison": bool(st.get("poison"))}
 
     def sync(self, what, all_slots, started=True):
         creqs, layout = self.census_reqs(list(all_slots()))
